@@ -124,6 +124,9 @@ def gen_case(rng, opts=None):
             "h1": [tables(cfgA, p) for p in h1], "h2": [tables(cfgB, p) for p in h2],
             "final_rows": h2[-1], "p_fail": rng.choice([0.0, 0.0, 0.3]), "cseed": rng.randrange(1 << 30),
             "full": full}
+    # trashbin on in some cases (same retention for the evolved and the fresh client); decided from
+    # a separate stream so that the histories above stay what they were
+    case["retention"] = random.Random(case["cseed"] ^ 0x7a5).choice([0, 0, 1]) if opts.get("trashbin") else 0
     if opts.get("pkey_move") and full["shape"] == "flat":
         return add_pkey_move(rng, case)
     return case
@@ -183,9 +186,9 @@ def add_pkey_move(rng, case):
     return case
 
 
-def run_client_life(wd, cdm, cworld, limit, nloops, day):
+def run_client_life(wd, cdm, cworld, limit, nloops, day, retention=0, purge_at_end=False):
     import clidrv
-    conf = clidrv.client_config(wd, cdm, trashbin_retention=0, foreignkeys_policy="on_remove_event",
+    conf = clidrv.client_config(wd, cdm, trashbin_retention=retention, foreignkeys_policy="on_remove_event",
                                 autoremediation="disabled")
     cl = clidrv.start_client(wd, conf, cworld, logsink=cworld.get("logsink"))
 
@@ -193,7 +196,11 @@ def run_client_life(wd, cdm, cworld, limit, nloops, day):
         cworld["limit"] = limit
         if cworld.get("iter_hook"):
             cworld["iter_hook"](i)
-    clidrv.run_segment(cl, [{"now": EPOCH + datetime.timedelta(days=day)}] * nloops, before, lambda i, it: False)
+    its = [{"now": EPOCH + datetime.timedelta(days=day)}] * nloops
+    if purge_at_end and retention:
+        # two more iterations once every retention is over: the trashbin empties
+        its = its + [{"now": EPOCH + datetime.timedelta(days=day + retention + 5)}] * 2
+    clidrv.run_segment(cl, its, before, lambda i, it: False)
     snap = clicase.snapshot(cl)
     try:
         cl._GenericClient__sock._cleanup()
@@ -253,7 +260,8 @@ def run_case(case, wd):
         # the purely local entries keep failing during the first loop iteration of the last phase:
         # they are still queued when the dataschema event (key move) is consumed
         cworld["iter_hook"] = (lambda i: faults.__setitem__("local", i == 0)) if last else (lambda i: faults.__setitem__("local", False))
-        snaps.append(run_client_life(wd + "/cli", cdm, cworld, len(world["bus"]), 8 if last else 3, pi))
+        snaps.append(run_client_life(wd + "/cli", cdm, cworld, len(world["bus"]), 8 if last else 3, pi,
+                                     retention=case.get("retention", 0), purge_at_end=last))
     n1 = marks[0]
     snapA, snapB = snaps[0], snaps[-1]
     evolved_calls = list(cworld["calls"])
@@ -262,7 +270,8 @@ def run_case(case, wd):
     fworld = H.new_world()
     server_run(wd + "/fsrv", final_cfg, [final_polls[-1]], fworld, True)
     fcw = {"bus": as_bus(fworld), "next": len(fworld["bus"]) + 1, "calls": [], "ncall": 0, "failfn": None}
-    fsnap = run_client_life(wd + "/fcli", final_cdm, fcw, len(fworld["bus"]), 6, 1)
+    fsnap = run_client_life(wd + "/fcli", final_cdm, fcw, len(fworld["bus"]), 6, 1,
+                            retention=case.get("retention", 0), purge_at_end=True)
     H.rmtree(wd)
     from lib.datamodel.serialization import JSONSerializable
     parse = lambda w: [json.loads(json.dumps(e), object_hook=JSONSerializable._json_parser) for e in w["bus"]]
@@ -285,6 +294,9 @@ def target_of(calls):
         if kind in ("added", "recycled", "modified"):
             if c["new"] is not None:
                 st[i] = {a: v for a, v in c["new"].items() if a != clicase.TS}
+        elif kind == "trashed":
+            if i in st:
+                st[i] = dict(st[i], __trashed=True)       # still on the target, disabled
         elif kind == "removed":
             st.pop(i, None)
     return st
